@@ -28,7 +28,7 @@ T={
  "C12":("derived attributes of the extracted PEG: whitespace/comment alphabets, nullability, statement wrappers, separator padding, comment reachability, string-body exclusions",
         "Decides the layout attributes of the grammar; not language equivalence under re-layout."),
  "C13":("reachability of explicit crash primitives (panic, log.Fatal, os.Exit) from the entry points on the VTA call graph; generated parsers keep panic recovery on",
-        "Decides explicit crash sites only. Implicit run-time panics (index, nil, assertion) and the complexity clause are not decided (no sound tool in reach)."),
+        "Decides, for gosk's own non-generated code: explicit crash sites, every index and slice expression, forced type assertions, integer divisions, computed and input-sized make lengths, Must-style helpers, recursion through the EQU table and bracket nesting in the grammar. Nil dereferences, panics inside the generated parsers / third-party modules and the complexity clause are not decided (no sound tool in reach)."),
  "C14":("phase/effect analysis: scalar context fields read at emission are not written during traversal; no package-level writes after init; ocode list append-only, emission loop unconditional and forward",
         "Decides the channels through which one statement can influence another's bytes."),
  "C15":("backward slices of every SymTable/MacroMap key on go/ssa: no case folding, prefix/substring selection or truncation; no iteration over the tables; name-blind symbol ordering",
